@@ -43,6 +43,10 @@ def register(R):
             "implies(max_width is not None, result.maximum <= max_width)",
             "implies(min_width is not None and max_width is None, result.minimum >= min_width)",
             "implies(min_width is None and max_width is None, result == self)",
+            # a maximum only lowers, a minimum only raises (never above what was there unless the minimum asks for it)
+            "implies(min_width is None, result.maximum <= self.maximum and result.minimum <= self.minimum)",
+            "implies(max_width is None, result.maximum >= self.maximum and result.minimum >= self.minimum)",
+            "implies(self.maximum >= 0 and (max_width is None or max_width >= 0), result.maximum >= 0)",
         ],
     )
     R.contract(
